@@ -33,7 +33,7 @@ WITNESS = [
     (r"history::", "engine_core", "inkayaku_engine_core", "c10_repetition.rs", "witness_c10"),
     (r"san_suffix_fragment", "board", "inkayaku_board", "c05_check_detection.rs", "witness_c05_san"),
     (r"uci_to_pgn", "board", "inkayaku_board", "c13_rejected_move.rs", "witness_uci_to_pgn"),
-    (r"search_abort::", "engine_core", "inkayaku_engine_core", "c09_interrupted_search.rs", "witness_c09"),
+    (r"search_abort::", "append:engine_core/src/engine/search.rs", "inkayaku_engine_core", "c09_sweep.rs", "verif_witness_c09_interruption"),
     (r"SearchSlice::(search_negamax|search_quiescence)_slice", "append:engine_core/src/engine/search.rs", "inkayaku_engine_core", "c09_sweep.rs", "verif_witness_c09_interruption"),
     (r"SearchSlice::", "engine_core", "inkayaku_engine_core", "c09_interrupted_search.rs", "witness_c09"),
     (r"attacks::Bitboard::", "board", "inkayaku_board", "c05_check_detection.rs", "witness_c05"),
